@@ -9,7 +9,7 @@ import decimal
 import fractions
 import z3
 
-from .values import (SV, STR, OSTR, INT, BOOL, FRAC, DEC, FLOAT, BEAT, TNum, TSeq, TNT, TAbs, TOpt,
+from .values import (SV, STR, OSTR, OINT, INT, BOOL, FRAC, DEC, FLOAT, BEAT, TNum, TSeq, TNT, TAbs, TOpt,
                      is_sym, term, coerce, sv, fresh, fresh_term, ty_of_concrete)
 from .execu import HObj, NTVal, SymIter, GenResult, Unsupported, concretize, _wrap_field, Bound, type_of
 from . import models as M
@@ -372,3 +372,66 @@ def _property_get(ex, recv, name, args, kwargs):
 
 
 M.METHOD_HOOKS.append(_property_get)
+
+
+# ---------------------------------------------------------------------------
+# python lists of symbolic length: `[x] * n` with symbolic n
+
+
+def is_slist(v):
+    return isinstance(v, HObj) and v.cls is list and "arr" in v.fields
+
+
+def new_slist(ex, ety, arr, length, label="list"):
+    o = HObj(list, {"arr": arr, "len": length, "ety": ety}, label)
+    if ex.writes is not None:
+        o._born = ex.writes
+    return o
+
+
+def _slist_mul(ex, recv, name, args, kwargs):
+    if name == "__mul__" and isinstance(recv, list) and len(recv) == 1 and is_sym(args[0]):
+        x = recv[0]
+        ety = OINT if x is None else (TOpt(ty_of_concrete(x)) if not is_sym(x) else x.ty)
+        n = term(args[0], INT)
+        arr = z3.K(z3.IntSort(), term(x, ety) if not is_sym(x) else x.t)
+        return new_slist(ex, ety, arr, z3.If(n > 0, n, z3.IntVal(0)), "list*n")
+    return NotImplemented
+
+
+def _slist_getitem(ex, obj, key):
+    if is_slist(obj):
+        if isinstance(key, slice):
+            raise Unsupported("slice of symbolic list")
+        k = term(key, INT)
+        n = obj.fields["len"]
+        if not ex.branch(z3.And(k >= -n, k < n), "idx-ok"):
+            ex.raise_(IndexError, "list index out of range", tag="index")
+        idx = k if (isinstance(key, int) and key >= 0) else z3.If(k >= 0, k, n + k)
+        return _wrap_field(obj.fields["ety"], z3.Select(obj.fields["arr"], idx))
+    return NotImplemented
+
+
+def _slist_setitem(ex, obj, key, v):
+    if is_slist(obj):
+        k = term(key, INT)
+        n = obj.fields["len"]
+        if not ex.branch(z3.And(k >= -n, k < n), "idx-ok"):
+            ex.raise_(IndexError, "list assignment index out of range", tag="index")
+        idx = z3.If(k >= 0, k, n + k)
+        ety = obj.fields["ety"]
+        ex.setfield(obj, "arr", z3.Store(obj.fields["arr"], idx, term(v, ety) if not is_sym(v) else coerce(v, ety).t))
+        return True
+    return NotImplemented
+
+
+def _slist_len(ex, v):
+    if is_slist(v):
+        return concretize(SV(z3.simplify(v.fields["len"]), INT))
+    return NotImplemented
+
+
+M.METHOD_HOOKS.append(_slist_mul)
+M.GETITEM_HOOKS.append(_slist_getitem)
+M.SETITEM_HOOKS.append(_slist_setitem)
+M.LEN_HOOKS.append(_slist_len)
